@@ -527,3 +527,48 @@ def _expr_ops(cols=("a", "b", "c")):
 
 
 EXPR_OPS = _expr_ops()
+
+
+# ------------------------------------------------------------------ set-iteration-order world (C02)
+# The SQL engine builds SELECT lists by iterating Python sets of column tags.  tests.ColumnTag hashes
+# 'a' (97) and 'y' (121) to the same slot of a small set table, so two *equal* column sets iterate in
+# insertion order: {a, y} built as (a, y) and as (y, a) list their members differently.  This world owns
+# that source of nondeterminism: the same columns reach a UNION through every insertion history.
+def collide_world():
+    s = "s"
+    leaves = (
+        LeafSpec("PA", s, ("a", "y"), ((1, 10), (2, 20), (2, 20), (3, 10))),
+        LeafSpec("QB", s, ("y", "a"), ((30, 3), (10, 1), (20, 5))),
+        LeafSpec("Ua", s, ("a",), ((1,), (2,))),
+        LeafSpec("Uy", s, ("y",), ((10,), (20,))),
+    )
+    return World(engines=(("s", "sql"),), leaves=leaves)
+
+
+def collide_orders_differ():
+    """Vacuity guard: the two insertion histories really iterate differently in this interpreter."""
+    from . import alphabet as A
+
+    return [t.qualified_name for t in A.tags(("a", "y"))] != [t.qualified_name for t in A.tags(("y", "a"))]
+
+
+P_Y_GE_20 = ("ge", R("y"), L(20))
+COLLIDE_OPS = (
+    ("chain", ("QB",)),
+    ("chain", ("QB",), True),
+    ("chain", ("PA",)),
+    ("chain", ("Uy", ("join", ("Ua",), None, False))),
+    ("chain", ("Ua", ("join", ("Uy",), None, False)), True),
+    ("chain", ("self",)),
+    ("join", ("Uy",), None, False),
+    ("join", ("Ua",), None, True),
+    ("dedup",),
+    ("proj", ("y",)),
+    ("proj", ("a",)),
+    ("sel", P_A_GT_1),
+    ("sel", P_Y_GE_20),
+    ("calc", "x", NEG_A),
+    S((R("y"), ASC), (R("a"), DESC)),
+    ("slice", 0, 2),
+)
+COLLIDE_ROOTS = ("PA", "QB", "Ua", "Uy")
